@@ -790,7 +790,8 @@ func c05RoundE(c *Ctx, w *World) {
 		updObj := w.FuncObj(uconPkg, "VoteDB", "UpdateVoteData")
 		sendEv := w.Named(uconPkg, "SendMessageEvent")
 		c.sawFunc(fname(vote))
-		updCalls := callsTo(vote, updObj)
+		voteTail := voteTailOf(w, vote, updObj)
+		updCalls := callsTo(voteTail, updObj)
 		isPost := func(in ssa.Instruction) bool {
 			ci, isCall := in.(ssa.CallInstruction)
 			if !isCall {
@@ -804,7 +805,7 @@ func c05RoundE(c *Ctx, w *World) {
 			return len(args) > 0 && types.Identical(stripConv(args[0]).Type(), sendEv)
 		}
 		n := 0
-		for _, ci := range sitesVia(w, vote, isPost) {
+		for _, ci := range sitesVia(w, voteTail, isPost) {
 			n++
 			c.sites++
 			ok := false
@@ -852,16 +853,16 @@ func c05RoundE(c *Ctx, w *World) {
 			ok := true
 			why := ""
 			for _, sv := range sets {
-				if _, isMk := sv.(*ssa.MakeMap); !isMk {
+				if _, isPhi := sv.(*ssa.Phi); isPhi {
 					ok = false
-					why = fmt.Sprintf("the set handed over is a %T (chosen among several), not one map", sv)
+					why = "the set handed over is chosen among several maps"
 				}
 				if sv != sets[0] {
 					ok = false
 					why = "different calls are handed different sets"
 				}
 			}
-			if mk, isMk := sets[0].(*ssa.MakeMap); isMk && ok {
+			if mk, isIn := sets[0].(ssa.Instruction); isIn && ok {
 				if isLoopHeader(mk.Block()) || inLoopBlock(mk.Block()) {
 					ok = false
 					why = "the set is made anew inside the loop over the evidences"
